@@ -377,4 +377,5 @@ class CNFio(BaseCNF):
         return sat_solve(self,
                          cmd=cmd,
                          sameas=sameas,
-                         verbose=0)[0]
+                         verbose=0,
+                         need_witness=False)[0]
